@@ -1244,6 +1244,19 @@ func (p *Pkg) listValue(e ast.Expr) (Val, bool) {
 	}
 	var out []Val
 	idx := 0
+	// elements skipped by keyed entries hold the element type's zero value
+	gap := Val{K: VList}
+	if hasT {
+		switch u := tv.Type.Underlying().(type) {
+		case *types.Array:
+			gap = zeroOf(u.Elem())
+		case *types.Slice:
+			gap = zeroOf(u.Elem())
+		}
+	}
+	if gap.K == VNil || gap.K == VOpaque {
+		gap = Val{K: VList}
+	}
 	for _, el := range cl.Elts {
 		v := el
 		if kv, ok := el.(*ast.KeyValueExpr); ok {
@@ -1259,7 +1272,7 @@ func (p *Pkg) listValue(e ast.Expr) (Val, bool) {
 			return Val{}, false
 		}
 		for len(out) <= idx {
-			out = append(out, Val{K: VList})
+			out = append(out, gap)
 		}
 		out[idx] = c
 		idx++
